@@ -40,4 +40,55 @@ def timesP (loc : Int → Int) (s : State) : Py (List ATup) :=
     (local_tzinfo := localTzP s) (localize := localizeP loc) (last_ack := awareOpt s.lastAck) (snooze_until := awareOpt s.snooze)
     (parent := ()) (mk_alarm_time := mkATP)
 
+/-! ### `Alarms.add_component` and the setters: the attributes it writes -/
+
+/-- what `add_component` looks at of an Event / Todo: the acknowledgement properties, `.start` / `.end` (`none`: the
+    property raises IncompleteComponent), `walk("VALARM")` -/
+structure CompView where
+  parent : Parent
+  start : Option Trig
+  end_ : Option Trig
+  alarms : List VAlarm
+
+/-- the attributes of an `Alarms` object that `add_component` writes: `_absolute_alarms`, `_start_alarms`, `_end_alarms`,
+    `_start`, `_end`, `_last_ack`, `_snooze_until`, `_parent` -/
+abbrev Fields := List VAlarm × List VAlarm × List VAlarm × Option Trig × Option Trig × Option Trig × Option Trig × Option CompView
+
+def fieldsOf (s : State) (par : Option CompView) : Fields :=
+  (s.absoluteAlarms, s.startAlarms, s.endAlarms, s.start, s.end_, awareOpt s.lastAck, awareOpt s.snooze, par)
+
+def startP (c : CompView) : Py Trig :=
+  match c.start with
+  | some t => .ok t
+  | none => .error .incompleteComponent
+def endP (c : CompView) : Py Trig :=
+  match c.end_ with
+  | some t => .ok t
+  | none => .error .incompleteComponent
+def relatedIsStartP (a : VAlarm) : Bool := decide (a.triggerRelated = START)
+
+/-- the translated `Alarms.add_alarm` on the three lists -/
+def addAlarmP (a : VAlarm) (abs st en : List VAlarm) : List VAlarm × List VAlarm × List VAlarm :=
+  Alarms_add_alarm (alarm := a) (absolute_alarms := abs) (start_alarms := st) (end_alarms := en)
+    (alarm_trigger := fun a => a.trigger) (trigger_is_date := TriggerV.isAbs) (related_is_start := relatedIsStartP)
+
+/-- the translated `Alarms.add_component` on the attributes; the model has one parent, so `self._parent is not parent`
+    is false; `tzp.localize_utc` is the identity on the model's UTC instants -/
+def alarmsAddComponentP (c : CompView) (f : Fields) : Py Fields :=
+  Alarms_add_component (component := c) (absolute_alarms := f.1) (start_alarms := f.2.1) (end_alarms := f.2.2.1)
+    (start := f.2.2.2.1) (end_ := f.2.2.2.2.1) (last_ack := f.2.2.2.2.2.1) (snooze_until_ := f.2.2.2.2.2.2.1)
+    (parent_now := f.2.2.2.2.2.2.2) (is_event_or_todo := fun _ => true) (parent_differs := fun _ _ => false)
+    (component_start := startP) (component_end := endP) (is_thunderbird := fun c => c.parent.isThunderbird)
+    (x_moz_lastack := fun c => awareOpt c.parent.lastack) (x_moz_snooze_time := fun c => awareOpt c.parent.snoozeTime)
+    (dtstamp := fun c => awareOpt c.parent.dtstamp) (localize_utc := id) (walk_valarm := fun c => c.alarms)
+    (alarm_trigger := fun a => a.trigger) (trigger_is_date := TriggerV.isAbs) (related_is_start := relatedIsStartP)
+
+/-- the translated `Alarms.times` on the attributes (and the local time zone, which `add_component` does not write) -/
+def timesF (loc : Int → Int) (localTz : Bool) (f : Fields) : Py (List ATup) :=
+  Alarms_times (end_ := f.2.2.2.2.1) (end_alarms := f.2.2.1) (start := f.2.2.2.1) (start_alarms := f.2.1)
+    (absolute_alarms := f.1) (alarm_trigger_rel := trigRelP) (alarm_trigger_abs := trigAbsP)
+    (alarm_repeat := fun a => a.rep) (alarm_duration := fun a => a.duration) (to_datetime := toDatetime) (normalize_pytz := id)
+    (local_tzinfo := if localTz then some () else none) (localize := localizeP loc) (last_ack := f.2.2.2.2.2.1)
+    (snooze_until := f.2.2.2.2.2.2.1) (parent := ()) (mk_alarm_time := mkATP)
+
 end ICal.Bodies
